@@ -105,11 +105,11 @@ Step(h, op, recv, a) ==
          ELSE IF a.prof = 0 THEN Q(o, [uniq |-> MutsUnique(o), hasprof |-> FALSE])
          ELSE Q(o, [uniq |-> MutsUnique(o), new |-> MutsNew(o, ProfileOf(h[a.prof])), both |-> MutsBoth(o, ProfileOf(h[a.prof])), hasprof |-> TRUE])
     [] op = "NumMutRef" ->
-         IF NumMutErr(o.al, o.rows[a.i + 1].s, o.rows[a.ref + 1].s) THEN Fail(o)
-         ELSE Q(o, [v |-> NumMut(o.al, o.rows[a.i + 1].s, o.rows[a.ref + 1].s)])
+         IF NumMutErr(o.al, o.rows[a.i + 1].s, o.rows[a.refi + 1].s) THEN Fail(o)
+         ELSE Q(o, [v |-> NumMut(o.al, o.rows[a.i + 1].s, o.rows[a.refi + 1].s)])
     [] op = "ListMutRef" ->
-         IF NumMutErr(o.al, o.rows[a.i + 1].s, o.rows[a.ref + 1].s) THEN Fail(o)
-         ELSE Q(o, [muts |-> ListMut(o.al, o.rows[a.i + 1].s, o.rows[a.ref + 1].s)])
+         IF NumMutErr(o.al, o.rows[a.i + 1].s, o.rows[a.refi + 1].s) THEN Fail(o)
+         ELSE Q(o, [muts |-> ListMut(o.al, o.rows[a.i + 1].s, o.rows[a.refi + 1].s)])
     [] op = "CountProfile" -> Q(o, [prof |-> ProfileCounts(o)])
     [] op = "Identical" -> Q(o, [v |-> /\ Len(o.rows) = Len(h[a.other].rows)
                                        /\ \A r \in 1..Len(o.rows) : HasName(h[a.other], o.rows[r].n)
